@@ -1208,3 +1208,5 @@ fire('c19-queue-clear-forwards-nothing', 'C19', SD, 'CharacteristicsQueue.Clear'
 fire('c19-iter-raises-for-nonempty', 'C19', SD, 'SearchData.__iter__', '        if self.curIter is None:\n            raise StopIteration\n        else:\n            return self',
      '        if self.curIter is not None:\n            raise StopIteration\n        else:\n            return self', 'R19.4',
      why='found by mutation sampling')
+dtwin('c12-geterr-before-seterr', 'C12', 'seeded/twins/geterr-before-seterr-restored-in-finally.diff',
+      why='the caller\'s error mode is read before the change and restored in finally')
